@@ -675,7 +675,8 @@ def engine_for(pid):
 # ----------------------------------------------------------------------------------- manifest texts
 NOT_APPLICABLE = {}
 
-_T = ("Lean 4 proof over an executable model whose data layer (SQL statements), websocket layer (onMessage + handlers) and usage summaries "
+_T = ("Lean 4 proof over an executable model whose data layer (SQL statements), websocket layer (onMessage + handlers), Mailbox/AppNamespace "
+      "method bodies (open, close, add_message, claim, release, open_mailbox), usage summaries and sweep timer "
       "are proved equal to translations regenerated from the source on every run + differential correspondence model<->code + property "
       "oracle on implementation traces")
 NOTES = {pid: {"technique": _T, "text": "", "note": ""} for pid in PROPS}
@@ -691,9 +692,10 @@ def _n(pid, text, note, technique=None):
 _TIE = ("Trusted: Lean kernel (axioms of every listed theorem checked to be within propext/Classical.choice/Quot.sound; thorough tier re-checks "
         "the modules with leanchecker), the translators (translate.py: constants, allocation ranges, schema scripts; translate_sql.py: the 49 "
         "SQL statements of server.py; translate_ws.py / translate_wsbody.py: onMessage and all handle_* of server_websocket.py; "
-        "translate_summ.py: the two usage-summary functions) with the semantics Lean gives their output (Sql.lean, WsGuards.lean, PyWs.lean, "
-        "PySum.lean) - for those parts the model is PROVED equal to the translation of the current source on every run (Tie/*.lean, "
-        "e.g. onMessage_eq_reach); the rest of the hand-written model (control flow of server.py below the method table, database.py) is tied "
+        "translate_summ.py: the two usage-summary functions; translate_tap.py: expire()/TimerService; translate_srv.py: the bodies of "
+        "Mailbox.open/_touch/_add_message/close and AppNamespace._add_mailbox/open_mailbox/claim_nameplate/release_nameplate) with the "
+        "semantics Lean gives their output (Sql.lean, WsGuards.lean, PyWs.lean, PySum.lean, PyTap.lean, PySrv.lean) - for those parts the model is PROVED equal to the translation of the current source on every run (Tie/*.lean, "
+        "e.g. onMessage_eq_reach); the rest of the hand-written model (prune, allocate's search loop, get_messages/listeners, log_client_version, dump_stats, database.py) is tied "
         "to the code by differential execution on generated histories every run, not proved; impl.py runner; SQLite/CPython/Twisted/Autobahn "
         "modelled, not verified. Environment assumptions are exactly the fields of GSys.WFOp (fresh connection ids, monotone time, fresh "
         "generated mailbox ids).")
